@@ -38,14 +38,16 @@ func init() {
 		Run: func(c *Ctx) {
 			f := c.P.Func(hsPkg + ".(*Slot).Check")
 			cpc := c.P.Func(hsPkg + ".canPassCheck")
-			if f == nil || cpc == nil {
-				c.AnchorLost("hotspot.Slot.Check / canPassCheck")
+			if f == nil {
+				c.AnchorLost("hotspot.Slot.Check")
 				return
 			}
+			// canPassCheck is a forwarding wrapper around TrafficShapingController.PerformChecking; when it has been folded
+			// into the slot the invoke itself is the parameter check
 			n := 0
 			for _, ci := range callsIn(f) {
 				cc := ci.Common()
-				isCheck := isStaticCallTo(ci, cpc) || (cc.IsInvoke() && cc.Method.Name() == "PerformChecking")
+				isCheck := (cpc != nil && isStaticCallTo(ci, cpc)) || (cc.IsInvoke() && cc.Method.Name() == "PerformChecking")
 				if !isCheck {
 					continue
 				}
